@@ -84,7 +84,8 @@ func guarded(f func()) (verdict, detail string) {
 var rePhyHeader = regexp.MustCompile(`^[ \t\r\n]*([0-9]+)[ \t]+([0-9]+)[ \t]*\r?\n`)
 
 // the other shape of a Nexus header: a TAXA block declaring the taxa, a CHARACTERS / DATA block with nchar only
-var reNexTaxa = regexp.MustCompile(`(?is)begin\s+taxa;\s*dimensions\s+ntax=([0-9]+);\s*taxlabels\s+([^;]*);\s*end;\s*begin\s+(?:characters|data);\s*dimensions\s+nchar=([0-9]+);`)
+// (BEGIN must be a word of its own: "1.0BEGIN TAXA;" opens nothing - false alarm met at thorough seed 1)
+var reNexTaxa = regexp.MustCompile(`(?is)(?:^|[\s;])begin\s+taxa;\s*dimensions\s+ntax=([0-9]+);\s*taxlabels\s+([^;]*);\s*end;\s*begin\s+(?:characters|data);\s*dimensions\s+nchar=([0-9]+);`)
 var reNexDim = regexp.MustCompile(`(?i)(?:^|[\s;])begin[ \t]+data;[ \t]*\n[ \t]*dimensions[ \t]+ntax=([0-9]+)[ \t]+nchar=([0-9]+);`)
 
 func mayExit(format string, in []byte) bool {
